@@ -216,7 +216,7 @@ from vc.core.leanstep import lean_step as _lean_step
 def no_static_case():
     """frame of the whole engine: no function of the engine sources (every class method and free function clang reports for
     engine.cpp and the headers it includes, the set-up helpers and GenerateStochasticDistribution included) declares a local
-    variable with static storage - such a variable outlives the simulation, so a later run in the same process would
+    variable with static storage that is not const - such a variable outlives the simulation, so a later run in the same process would
     depend on the earlier ones (a std:: distribution object kept static keeps its cached deviate)"""
     P = "C08/engine"
 
@@ -234,7 +234,10 @@ def no_static_case():
             if not isinstance(n, dict):
                 return
             if n.get("kind") == "VarDecl" and n.get("storageClass") == "static":
-                found.append("%s: static %s" % (owner, n.get("name")))
+                qt = (n.get("type") or {}).get("qualType", "")
+                # a const-qualified static holds no state that a run could leave behind (a constant table): not reported
+                if not qt.startswith("const "):
+                    found.append("%s: static %s (%s)" % (owner, n.get("name"), qt))
             for ch in n.get("inner", []) or []:
                 walk(ch, owner)
         for nm, n in fns:
